@@ -25,5 +25,16 @@ def run(ctx):
     jobs.append(dict(ctx=ctx, binary=binary, name="fbwrap", stacks=wrapped, outs=seq.OUTS_WR, maxcalls=3, execs=2, workers=4))
     mism = seq.run_jobs(ctx, jobs, par=3)
     seq.report(ctx, mism, accept)
+    # a cancellation that arrives while the fallback's (slow) OnFailure listener runs: no fallback for a cancelled execution
+    import p_c07, tscen
+    from tscen import scenario, fn, start, env, to, retry, fb
+    scs = []
+    for st in ([fb(fld=2)], [fb(fld=2), retry(1, dly=1)], [to(3), fb(fld=2)], [retry(1, dly=1), fb(fld=2)]):
+        for ct in (0, 1, 2, 3, 4):
+            for asyn in (False, True):
+                fns = [[fn(1, "R0", "E1", True)] * 4]
+                scs.append(scenario(st, fns, [start(1, 0, asyn), env("AsyncCancel" if asyn else "CtxCancel", ct, 1)]))
+        scs.append(scenario(st, [[fn(2, "R0", "E1", True)] * 4], [start(1)]))
+    p_c07.run_family(ctx, "c10t", scs)       # (the C08 promptness predicate assumes listeners that take no time: acceptance by the model is the check here)
     return vlib.finish(ctx, rule="fallback-centred stacks (5 fallback configurations: result / error / handled subset / ErrExceeded+result / ErrOpen) over and under %d inner policies; "
                        "every lazily chosen script, 2 executions; non-trivial = more than one invocation or any policy event" % len(INNER1), exhaustive=True)
